@@ -31,6 +31,7 @@ def plan(tier, seed):
         jobs.append({"func": "syncreply", "fw": fw, "name": "syncreply/" + fw, "args": {}})
         jobs.append({"func": "progress_grid", "fw": fw, "name": "progress_grid/" + fw, "args": {}})
         jobs.append({"func": "repeat_unregister", "fw": fw, "name": "repeat_unregister/" + fw, "args": {}})
+        jobs.append({"func": "decorated_objects", "fw": fw, "name": "decorated_objects/" + fw, "args": {}})
     jobs.append({"func": "idgen", "name": "idgen", "args": {"seed": seed * 1000 + 900, "n": 500 if tier == "quick" else 5000}})
     return jobs
 
@@ -715,6 +716,92 @@ def repeat_unregister(col):
     col.exhaustive.append("C04 repeat_unregister: 2-3 outstanding unregister requests for one registration x every reply order x success/error mixes x 2 serializers (%d histories)" % n_cases)
 
 
+def decorated_one(col, c):
+    """register(obj) / subscribe(obj) of an object with three decorated methods: which of them carry decorator-level options is given by c["own"];
+    c["session_opts"] says whether options are also passed to register()/subscribe().  One request per method, each carrying its own decorator's
+    options if it has any and the options passed to the call otherwise; replies in reverse order complete the matching registrations."""
+    from autobahn import wamp
+    from autobahn.wamp.types import RegisterOptions, SubscribeOptions
+    from harness.wampsess import SessionWorld
+    kind, own, sess = c["kind"], c["own"], c["session_opts"]
+    w = SessionWorld(serializer="json")
+    try:
+        w.join()
+        s, M = w.session, w.message
+        if kind == "register":
+            OWN = [RegisterOptions(invoke="roundrobin"), RegisterOptions(concurrency=3), RegisterOptions(match="prefix", invoke="last")]
+            given = RegisterOptions(match="wildcard", force_reregister=True) if sess else None
+            deco, attrs = wamp.register, ("match", "invoke", "concurrency", "force_reregister")
+        else:
+            OWN = [SubscribeOptions(match="prefix"), SubscribeOptions(get_retained=True), SubscribeOptions(match="wildcard", get_retained=False)]
+            given = SubscribeOptions(match="exact", get_retained=True) if sess else None
+            deco, attrs = wamp.subscribe, ("match", "get_retained")
+        names = ["m_a", "m_b", "m_c"]
+        ns = {}
+        for k, nm in enumerate(names):
+            def fn(self_, *a, **kw):
+                return None
+            fn.__name__ = nm
+            ns[nm] = deco("com.example.obj.%s" % nm, options=OWN[k] if own[k] else None)(fn)
+        Obj = type("Obj", (object,), ns)
+        before = len(w.t.sent)
+        fut = w.call(lambda: (s.register(Obj(), options=given) if kind == "register" else s.subscribe(Obj(), options=given)))
+        sent = w.t.sent[before:]
+        want_cls = "Register" if kind == "register" else "Subscribe"
+        if [type(m).__name__ for m in sent] != [want_cls] * 3:
+            raise Violation("C04|decorated-object|request-count|" + kind, "%r" % ([type(m).__name__ for m in sent],), c)
+        ids = [m.request for m in sent]
+        if ids != list(range(ids[0], ids[0] + 3)):
+            raise Violation("C04|decorated-object|request-ids-not-sequential", repr(ids), c)
+        for m in sent:
+            uri = m.procedure if kind == "register" else m.topic
+            k = names.index(uri.rsplit(".", 1)[1])
+            src = OWN[k] if own[k] else given
+            for a in attrs:
+                want = getattr(src, a, None) if src is not None else None
+                dflt = {"match": "exact", "invoke": "single"}.get(a)        # the message classes report the protocol default for an absent option
+                if (getattr(m, a) or dflt) != (want or dflt) or (dflt is None and getattr(m, a) != want):
+                    raise Violation("C04|option-not-faithful|%s-object.%s" % (kind, a), "%s for %s carries %s=%r; the options that apply to this method (%s) say %r" % (
+                        want_cls.upper(), uri, a, getattr(m, a), "its decorator's" if own[k] else ("those passed to the call" if sess else "none"), want), c)
+        tr = w.track(fut)
+        for j, m in enumerate(reversed(sent)):
+            err = w.feed(M.Registered(m.request, 700 + j) if kind == "register" else M.Subscribed(m.request, 700 + j))
+            if err is not None:
+                raise Violation("C04|decorated-object|valid-reply-raised|" + exc_key(err), repr(err), c)
+        w.settle()
+        if tr.n != 1 or not tr.ok:
+            raise Violation("C04|decorated-object|result-not-completed", "n=%r ok=%r value=%r" % (tr.n, tr.ok, tr.value), c)
+        got = [x[1] if isinstance(x, tuple) else x for x in tr.value]
+        for j, m in enumerate(reversed(sent)):
+            uri = m.procedure if kind == "register" else m.topic
+            hit = [g for g in got if getattr(g, "id", None) == 700 + j]
+            if len(hit) != 1 or (kind == "register" and hit[0].procedure != uri) or (kind == "subscribe" and hit[0].topic != uri):
+                raise Violation("C04|decorated-object|reply-matched-to-wrong-request", "reply %d for %s: %r" % (700 + j, uri, got), c)
+    finally:
+        w.close()
+
+
+def decorated_objects(col):
+    import itertools
+    n = 0
+    for kind in ("register", "subscribe"):
+        for own in itertools.product((False, True), repeat=3):
+            for sess in (False, True):
+                c = {"check": "decorated_object", "kind": kind, "own": list(own), "session_opts": sess}
+                try:
+                    decorated_one(col, c)
+                except (Violation, HarnessError):
+                    raise
+                except Exception as e:
+                    from harness.core import in_autobahn
+                    if in_autobahn(e):
+                        raise Violation("C04|decorated-object|exception|" + exc_key(e), repr(e), c)
+                    raise
+                n += 1
+                col.case(True, enum=True, cls=["decorated-object/%s/%s" % (kind, "".join("O" if o else "-" for o in own))], sample=c)
+    col.exhaustive.append("C04 decorated_objects: register/subscribe x 8 subsets of methods with decorator options x options passed to the call or not (%d cases)" % n)
+
+
 def syncreply(col):
     """enumerated: the router's reply arrives *while transport.send() of the request is still running* (an in-process / loopback router answers
     synchronously).  Each of the six request kinds, success and ERROR replies, three serializers: the request completes exactly once with that reply,
@@ -836,6 +923,10 @@ def replay(col, case):
         return
     if c.get("check") == "syncreply":
         syncreply(col)
+        return
+    if c.get("check") == "decorated_object":
+        decorated_one(col, c)
+        col.case()
         return
     i = Interp(col, c["config"]["serializer"])
     try:
